@@ -445,6 +445,8 @@ func (t *WeightedMerkleTrie) RollbackTrie(node Node) {
 		batcher.Commit(false) //nolint:errcheck
 	}
 	t.created = nil
+	// the deletions staged by the rolled back changes must not be carried out either
+	t.tempDeleted = nil
 	clear(t.deleted)
 }
 
